@@ -69,6 +69,12 @@ def _stage_ab(ctx):
                 if k is None or not (1 <= k <= c["n"] - 1):
                     ctx.violation("keygen-out-of-range", {"stage": "B", "curve": cn, "op": "keygen", "draws": seq[:8], "got": str(got)})
             G = h_G(c)
+            for v in range(c["n"] + 2):          # wrong lengths around every value: must be refused
+                for kb in (v.to_bytes(32, "big") + b"\x01", v.to_bytes(32, "big") + b"\x00", b"\x00" + v.to_bytes(32, "big"), v.to_bytes(31, "big")):
+                    got = vlib.run_call(bits.compute_point, kb)
+                    n += 1
+                    if "ok" in got:
+                        ctx.violation("invalid-privkey-accepted", {"stage": "B", "curve": cn, "op": "pubof", "key_bytes": kb.hex(), "got": str(got)})
             for v in range(c["n"] + 2):
                 got = vlib.run_call(bits.compute_point, v.to_bytes(32, "big"))
                 n += 1
@@ -117,7 +123,8 @@ def gen_events(ctx, enc, curve, rnd, quick):
     for (x, y, cls) in [(G[0], G[1], "on"), (G[0], G[1] ^ 1, "off"), (0, 0, "off"), (p - 1, 1, "off"), (pts[3][0], pts[3][1], "on")]:
         r = vlib.run_call(em.point_is_on_curve, x, y)
         add(dict(op="oncurve", x=enc.num(x), y=enc.num(y), ok="ok" in r, res=bool(r.get("ok", False))), cls)
-    ks = [0, 1, 2, 3, n - 1, n, n + 1, 2 ** 256 - 1, 2 ** 255, 2 ** 255 - 1, 2 ** 128, (1 << 200) - 1]
+    ks = [0, 1, 2, 3, n - 1, n, n + 1, 2 ** 256 - 1, 2 ** 255, 2 ** 255 - 1, 2 ** 128, (1 << 200) - 1,
+          2 ** 256, 2 ** 256 + 1, 2 * n + 3, (n - 1) * (n - 1), 2 ** 300 + 5]     # "all scalars k >= 0", unreduced products
     ks += [rnd.randrange(1, n) for _ in range(4 if quick else 400)]
     if not quick:
         ks += [1 << i for i in range(0, 256, 7)] + [(1 << i) - 1 for i in range(2, 256, 11)] + [n + rnd.randrange(1, 2 ** 200) for _ in range(20)]
@@ -128,6 +135,9 @@ def gen_events(ctx, enc, curve, rnd, quick):
     keys = [(0).to_bytes(32, "big"), (1).to_bytes(32, "big"), (n - 1).to_bytes(32, "big"), n.to_bytes(32, "big"),
             (2 ** 256 - 1).to_bytes(32, "big"), (255).to_bytes(32, "big"), (1).to_bytes(31, "big"), (1).to_bytes(33, "big"), b"",
             rnd.randrange(1, n).to_bytes(32, "big")]
+    v32 = rnd.randrange(1, n).to_bytes(32, "big")
+    # byte strings that are NOT 32 bytes although they contain / extend a valid key (WIF-style flag byte, padding, truncation)
+    keys += [v32 + b"\x01", v32 + b"\x00", b"\x00" + v32, b"\x80" + v32, v32[:31], v32[1:], v32 + v32, (5).to_bytes(32, "big") + b"\x01"]
     keys += [rnd.randrange(1, n).to_bytes(32, "big") for _ in range(0 if quick else 100)]
     for kb in keys:
         add(dict(op="pubof", key=list(kb), **rec_point_result(enc, bits.compute_point, kb)), "privkey")
